@@ -30,6 +30,7 @@ theorem mul_two (a b c d a' b' c' d' : α) :
 theorem identity_two : (LMat.identity 2 : LMat α) = [[1, 0], [0, 1]] := by
   simp [LMat.identity, List.range_succ]
 
+omit [CommRing α] in
 theorem mat2_ext {a b c d a' b' c' d' : α} (h1 : a = a') (h2 : b = b') (h3 : c = c') (h4 : d = d') :
     [[a, b], [c, d]] = [[a', b'], [c', d']] := by subst h1 h2 h3 h4; rfl
 
@@ -73,8 +74,8 @@ theorem ry_spec (θ : P) : (matrix (.RY θ) : LMat α) = specMatrix (.RY θ) := 
   refine ⟨?_, ?_⟩ <;> grind
 
 theorem rz_spec (l : P) : (matrix (.RZ l) : LMat α) = specMatrix (.RZ l) := by
-  simp only [matrix, matRZ, specMatrix, rot, pauliZ, conj_polar_one h, Amp.polar]
-  simp [LMat.get, List.range_succ]
+  simp only [matrix, matRZ, specMatrix, rot, pauliZ, conj_polar_one h]
+  simp [LMat.get, List.range_succ, Amp.polar]
 
 omit h in
 theorem u1_spec (l : P) : (matrix (.U1 l) : LMat α) = specMatrix (.U1 l) := by
